@@ -82,8 +82,10 @@ package database
 //@   pure
 //@ func (*ScriptView).getPostgresDataTypes
 //@   pure
+// (autoincrement?, primary key?) of a column: a function of the column definition alone.
 //@ func isAutoIncrementAndPrimaryKey
 //@   pure
+//@   deterministic
 
 // Delta of one retained table: every column of the old version that the new version lacks gets a DROP COLUMN
 // statement, every column of the new version is either created (absent before) or compared with its old definition.
@@ -92,6 +94,9 @@ package database
 //@   ghostclear @iter:0 handled
 //@   ghostset @call:fmt.Sprintf handled
 //@   loop 0 step [removed-column-is-dropped] attrTypeNew == nil ==> ghost("handled")
+// dropping a column that was part of the key (its ~pk flag, not its ~autoinc flag) makes the delta rebuild the key
+//@   loop 0 step [dropped-key-column-rebuilds-the-key] attrTypeNew == nil && nth(isAutoIncrementAndPrimaryKey(attrTypeOld), 1) ==> primaryKeyChanged && primaryKeyExisted
+//@   loop 0 step [key-untouched-by-other-dropped-columns] hdr(!primaryKeyChanged) && !(attrTypeNew == nil && nth(isAutoIncrementAndPrimaryKey(attrTypeOld), 1)) ==> !primaryKeyChanged
 //@   ghostclear @iter:1 created
 //@   ghostclear @iter:1 compared
 //@   ghostset @call:database.(*ScriptView).writeCreateSQLForAColumn created
